@@ -22,6 +22,7 @@ FAMILIES = {
     "query": "harness.check_query",
     "convert": "harness.check_convert",
     "reader": "harness.check_reader",
+    "batch": "harness.check_batch",
 }
 # property -> families whose judges print verdicts for it
 PROPS = {
@@ -39,6 +40,7 @@ PROPS = {
     "C20": ["query"],
     "C15": ["convert"],
     "C16": ["reader"],
+    "C17": ["batch"],
     "C01": ["formats"], "C02": ["formats"],
 }
 EXPLAIN = {}
